@@ -10,7 +10,7 @@ static QJsonObject op_json(const FOp &o)
 {
     QJsonObject j;
     j["k"] = QString::fromStdString(o.k);
-    if (o.k == "write") {
+    if (o.k == "write" || o.k == "swrite") {
         j["n"] = o.n;
         if (o.cls)
             j["cls"] = o.cls;
@@ -72,6 +72,8 @@ QJsonObject to_json(const FPlan &p)
     for (int x : p.foreign)
         f.append(x);
     o["foreign"] = f;
+    if (!p.sibling.empty())
+        o["sibling"] = QString::fromStdString(p.sibling);
     o["start_ms_of_day"] = p.start_ms_of_day;
     QJsonArray ops;
     for (auto &op : p.ops)
@@ -103,6 +105,7 @@ bool from_json(const QJsonObject &o, FPlan &p)
     p.fault_seed = o["fault_seed"].toString().toULongLong();
     for (auto v : o["foreign"].toArray())
         p.foreign.push_back(v.toInt());
+    p.sibling = o["sibling"].toString().toStdString();
     p.start_ms_of_day = o["start_ms_of_day"].toInt(12 * 3600 * 1000);
     for (auto v : o["ops"].toArray())
         p.ops.push_back(op_from(v.toObject()));
@@ -318,6 +321,43 @@ FPlan generate(const std::string &prop, const std::string &tier, uint64_t seed)
             if (r.chance(1, 40))
                 p.ops.push_back(simple("restart"));
         }
+    }
+    if (prop == "C06" && r.chance(1, 3)) {
+        // a second rotating sink with a look-alike base name shares the directory
+        std::string b = p.base;
+        size_t sl = b.find('/');
+        std::string dir = sl == std::string::npos ? "" : b.substr(0, sl + 1);
+        std::string name = sl == std::string::npos ? b : b.substr(sl + 1);
+        size_t dot = name.rfind('.');
+        std::string stem = (dot == std::string::npos || dot == 0) ? name : name.substr(0, dot);
+        std::string suf = (dot == std::string::npos || dot == 0) ? "" : name.substr(dot);
+        static const int kinds[] = { 0, 1, 2, 3, 4 };
+        switch (pick(r, kinds)) {
+        case 0:
+            p.sibling = dir + stem + "2" + suf; // app2.log
+            break;
+        case 1:
+            p.sibling = dir + "x" + stem + suf; // xapp.log
+            break;
+        case 2:
+            p.sibling = dir + stem + (suf.empty() ? ".log" : ""); // app <-> app.log
+            break;
+        case 3:
+            p.sibling = dir + stem + suf + (suf.empty() ? ".1" : "x"); // app.logx
+            break;
+        default:
+            p.sibling = dir + "my." + stem + suf; // my.app.log
+        }
+        std::vector<FOp> mixed;
+        for (auto &op : p.ops) {
+            mixed.push_back(op);
+            if (r.chance(1, 2)) {
+                FOp sw = wr((int)r.range(1, p.L > 0 ? p.L + 2 : 20), 0);
+                sw.k = "swrite";
+                mixed.push_back(sw);
+            }
+        }
+        p.ops = mixed;
     }
     return p;
 }
